@@ -173,9 +173,11 @@ func (runInfo *runInfoStruct) invokeAddOperator(operator *ast.AddOperator) {
 		rhsKind := runInfo.rv.Kind()
 
 		if lhsKind == reflect.Slice || lhsKind == reflect.Array {
+			// reflect appends to slices only: an array operand is appended to / from as the slice of its elements
+			lhsV = sliceOfArray(lhsV)
 			if rhsKind == reflect.Slice || rhsKind == reflect.Array {
 				// append slice to slice
-				runInfo.rv, runInfo.err = appendSlice(operator, lhsV, runInfo.rv)
+				runInfo.rv, runInfo.err = appendSlice(operator, lhsV, sliceOfArray(runInfo.rv))
 				return
 			}
 			// try to append rhs non-slice to lhs slice
@@ -299,4 +301,14 @@ func (runInfo *runInfoStruct) invokeMultiplyOperator(operator *ast.MultiplyOpera
 		runInfo.err = newStringError(operator, "unknown operator")
 		runInfo.rv = nilValue
 	}
+}
+
+// sliceOfArray returns v itself unless it is an array: then a new slice holding its elements.
+func sliceOfArray(v reflect.Value) reflect.Value {
+	if v.Kind() != reflect.Array {
+		return v
+	}
+	s := reflect.MakeSlice(reflect.SliceOf(v.Type().Elem()), v.Len(), v.Len())
+	reflect.Copy(s, v)
+	return s
 }
